@@ -64,6 +64,7 @@ pub fn exec_util(ev: &mut Value) {
                 6 => popcnt_wide::<6>(&data),
                 7 => popcnt_wide::<7>(&data),
                 8 => popcnt_wide::<8>(&data),
+                12 => popcnt_wide::<12>(&data),
                 16 => popcnt_wide::<16>(&data),
                 _ => usize::MAX,
             })
